@@ -39,8 +39,8 @@ ASSUMPTIONS = [
     "'negotiation loop' = a cycle among canonical states using delivery transitions only; 'diverges' = more than 6 messages per option in flight in one direction "
     "(a correct endpoint has at most one outstanding request per option and answers each message at most once)",
 ]
-MIN = {"quick": {"states": 20000, "nontrivial": 20000, "outcomes": 14, "transitions": 150000},
-       "thorough": {"states": 100000, "nontrivial": 100000, "outcomes": 14, "transitions": 1000000}}
+MIN = {"quick": {"states": 22000, "nontrivial": 20000, "outcomes": 14, "transitions": 165000},
+       "thorough": {"states": 125000, "nontrivial": 125000, "outcomes": 14, "transitions": 1250000}}
 
 OPTS = [b"\x01", b"\x03"]
 KINDS = ["will", "wont", "do", "dont"]
